@@ -35,6 +35,7 @@ Theorem C18_name_shape : forall St (step : St -> op -> St * res) ostmp s g dir p
             o = temp_file_op name) log.
 Proof.
   intros St step ostmp s g dir pattern s' log g' x H. unfold temp_file in H. fold (eff_dir ostmp dir) in H.
+  destruct (temp_refused pattern); [inversion H; constructor|].
   destruct (temp_prefix_suffix pattern) as [prefix suffix]. cbn [fst snd].
   destruct (temp_loop_logged step _ _ _ _ _ _ _ _ _ _ _ _ _ _ H) as [more [-> Hm]]. exact Hm.
 Qed.
@@ -45,6 +46,7 @@ Theorem C18_name_shape_dir : forall St (step : St -> op -> St * res) ostmp s g d
   Forall (fun o => exists name, shaped (eff_dir ostmp dir) prefix [] name /\ o = temp_dir_op name) log.
 Proof.
   intros St step ostmp s g dir prefix s' log g' x H. unfold temp_dir in H. fold (eff_dir ostmp dir) in H.
+  destruct (temp_refused prefix); [inversion H; constructor|].
   destruct (temp_loop_logged step _ _ _ _ _ _ _ _ _ _ _ _ _ _ H) as [more [-> Hm]]. exact Hm.
 Qed.
 Print Assumptions C18_name_shape_dir.
